@@ -1,5 +1,6 @@
 """Worlds, input pools and the simulated disk for calcsim (C13, C14)."""
 import io
+import os
 import random
 
 import h5py
@@ -32,13 +33,19 @@ def _crystals():
                                            [np.zeros(2), np.array([.5, .35]), np.array([.5, .65])]), 0.85),
         "tet2w": (lambda: crystal.Crystal(A * np.diag([1., 1., 1.6]),
                                           [np.zeros(3), np.array([.5, .5, .35]), np.array([.5, .5, .65])]), 0.95),
+        # two Wyckoff sets whose site indices interleave (sitelist [[0, 2], [1, 3]]); origin states too
+        "rect4i": (lambda: crystal.Crystal(A * np.array([[1., 0.], [0., 1.6]]),
+                                           [np.array([0., .2]), np.array([.5, .35]), np.array([0., .8]),
+                                            np.array([.5, .65])]), 0.85),
     }
 
 
 CRYSTALS = _crystals()
 CHEAP = ("sc", "fcc", "bcc", "diamond", "square", "tria", "honey", "triadisp", "rect2w")
-QUICK_WORLDS = ("sc", "fcc", "bcc", "hcp", "diamond", "square", "tria", "honey", "b2disp", "triadisp", "rect2w")
+QUICK_WORLDS = ("sc", "fcc", "bcc", "hcp", "diamond", "square", "tria", "honey", "b2disp", "triadisp", "rect2w", "rect4i")
 ALL_WORLDS = QUICK_WORLDS + ("tet2w",)
+if os.environ.get("CALCSIM_WORLDS"):      # A/B experiments only (e.g. "was this caught before world X existed?")
+    QUICK_WORLDS = ALL_WORLDS = tuple(os.environ["CALCSIM_WORLDS"].split(","))
 CHEM = 0
 
 
